@@ -65,7 +65,24 @@ static void genCloud(Prng& r, int kind, long n, int height, std::vector<std::arr
     }
 }
 
+static double clampToBoxF(double pd, float centre, float width) {
+    // single-precision trees: the library evaluates  float(p) - (centre + width * (-1/2))  in float
+    const float corner = centre + width * (-1.0f / 2.0f);
+    float p = float(pd);
+    for (int k = 0; k < 64 && (p - corner) < 0; ++k) p = std::nextafterf(p, INFINITY);
+    for (int k = 0; k < 64 && (p - corner) > width; ++k) p = std::nextafterf(p, -INFINITY);
+    if ((p - corner) < 0 || (p - corner) > width) p = corner + width * 0.5f;
+    return double(p);
+}
+
 static void toBox(const Scenario& sc, std::vector<std::array<double, 3>>& pts) {
+    if (sc.isFloat()) {
+        for (auto& p : pts) for (int d = 0; d < 3; ++d) {
+            const double corner = sc.centre[size_t(d)] + sc.width[size_t(d)] * (-1.0 / 2.0);
+            p[size_t(d)] = clampToBoxF(corner + p[size_t(d)] * sc.width[size_t(d)], float(sc.centre[size_t(d)]), float(sc.width[size_t(d)]));
+        }
+        return;
+    }
     for (auto& p : pts) for (int d = 0; d < 3; ++d) {
         const double corner = sc.centre[size_t(d)] + sc.width[size_t(d)] * (-1.0 / 2.0);
         p[size_t(d)] = clampToBox(corner + p[size_t(d)] * sc.width[size_t(d)], corner, sc.width[size_t(d)]);
@@ -174,6 +191,11 @@ Scenario generate(const std::string& prop, uint64_t seed, const std::string& tie
         sc.executor = rot ? exr[r.below(prop == "C03" ? 3 : 4)] : exu[r.below(prop == "C03" ? 3 : 4)];
         numeric = true;
     }
+    if (!numeric && (prop == "C02" || prop == "C03" || prop == "C15" || prop == "C13") && r.chance(0.12)
+        && (sc.executor == "seq" || sc.executor == "omp" || sc.executor == "seqtsm" || sc.executor == "omptsm")) {
+        sc.kernel = "weight_float";   // single-precision tree (positions, data) with the exact integer kernel
+        numeric = false;
+    }
     if (const char* f = getenv("TBFSIM_FORCE_KERNEL")) { sc.kernel = f; numeric = (sc.kernel == "rot" || sc.kernel == "unif"); if (sc.kernel == "unif" && sc.isTsm()) sc.executor = "omp"; }
     // ordering
     {
@@ -187,7 +209,7 @@ Scenario generate(const std::string& prop, uint64_t seed, const std::string& tie
         sc.ordering = x < pm ? "morton" : (x < pm + pp ? "periodic" : "hilbert");
         (void)ph;
         if (const char* f = getenv("TBFSIM_FORCE_ORDERING")) sc.ordering = f;
-        if (sc.executor.rfind("specx", 0) == 0 || sc.executor.rfind("starpu", 0) == 0 || numeric) sc.ordering = "morton";
+        if (sc.executor.rfind("specx", 0) == 0 || sc.executor.rfind("starpu", 0) == 0 || numeric || sc.isFloat()) sc.ordering = "morton";
     }
 
     sc.height = int(pickWeighted(r, {{1, 3}, {2, 7}, {3, 25}, {4, 32}, {5, 25}, {6, 8}}));
@@ -199,6 +221,7 @@ Scenario generate(const std::string& prop, uint64_t seed, const std::string& tie
         sc.centre[size_t(d)] = r.chance(0.3) ? 0.5 * sc.width[size_t(d)] : (r.unit() * 2 - 1) * 3.0 * w0;
     }
     if (numeric) { sc.width[1] = sc.width[0]; sc.width[2] = sc.width[0]; if (sc.height > 5) sc.height = 5; }
+    if (sc.isFloat()) for (int d = 0; d < 3; ++d) { sc.width[size_t(d)] = double(float(sc.width[size_t(d)])); sc.centre[size_t(d)] = double(float(sc.centre[size_t(d)])); }
     // particles
     long maxN = sc.height >= 6 ? 120 : (sc.height == 5 ? 220 : 400);
     if (prop == "C12") { maxN = 120; if (sc.height > 5) sc.height = 5; }
@@ -310,7 +333,8 @@ Scenario generate(const std::string& prop, uint64_t seed, const std::string& tie
                     for (int d = 0; d < 3; ++d) {
                         const double corner = sc.centre[size_t(d)] + sc.width[size_t(d)] * (-1.0 / 2.0);
                         const double uu = std::min(1.0, std::max(0.0, u[size_t(d)]));
-                        m.pos[size_t(d)] = clampToBox(corner + uu * sc.width[size_t(d)], corner, sc.width[size_t(d)]);
+                        m.pos[size_t(d)] = sc.isFloat() ? clampToBoxF(corner + uu * sc.width[size_t(d)], float(sc.centre[size_t(d)]), float(sc.width[size_t(d)]))
+                                                        : clampToBox(corner + uu * sc.width[size_t(d)], corner, sc.width[size_t(d)]);
                     }
                     cur[t][i] = m.pos;
                     mv.moves.push_back(m);
